@@ -154,3 +154,7 @@ def gen(ctx):
 
 
 UNITS = [Unit("reattach", gen, check, shards=(4, 16))]
+
+
+from vlib import clidiff
+UNITS.append(clidiff.unit("C13"))
